@@ -100,6 +100,8 @@ def parse(
             lexer.TokenType.VARIABLE_SET,
         ):
             structures.append(structure.GenericStatement([head]))
+        elif head.name != lexer.TokenType.GENERAL:
+            structures.append(structure.GenericStatement([head]))
         elif head.value == BREAK_CHARACTER:
             structures.append(structure.BreakStatement(parent))
         elif head.value == RECURSE_CHARACTER:
